@@ -150,6 +150,35 @@ def boundary_worker(arg):
         r["bad"] = {"kind": "boundary", "case": tlaval.to_json(c), "diff": diff, "expected": out}
     return r
 
+@core.safe
+def service_parts_worker(arg):
+    """The request and the response part of a service are laid out independently: constants of one name with other values in the
+    two parts give the array capacities (hence prefix widths, lengths, extents) of their own part.  Closed forms."""
+    import pydsdl
+    creq, cresp, first_use = arg
+    def part(cap, use):
+        return "uint32 CAP = %d\n%suint8[<=CAP] data\nuint8[CAP] fixed\n@sealed\n" % (cap, "uint8[<=CAP + 0] early\n" if use else "")
+    text = part(creq, first_use) + "---\n" + part(cresp, not first_use)
+    diff = []
+    with dsdlio.Tree({"ns/S.1.0.dsdl": text}, "c02s") as tr:
+        status, res, _ = dsdlio.read_ns(tr.path("ns"))
+    if status != "ok":
+        return {"nt": True, "key": core.jhash(list(arg)), "bad": {"kind": "service-parts", "case": list(arg), "diff": [("rejected", dsdlio.err_info(res))]}}
+    for name, t, cap, use in (("request", res[0].request_type, creq, first_use), ("response", res[0].response_type, cresp, not first_use)):
+        pw = 8 if cap <= 255 else 16 if cap <= 65535 else 32
+        var = [f for f in t.fields if f.name in ("data", "early")]
+        fixed = [f for f in t.fields if f.name == "fixed"][0]
+        got = ([(f.data_type.capacity, f.data_type.length_field_type.bit_length) for f in var], fixed.data_type.capacity,
+               t.bit_length_set.min, t.bit_length_set.max, t.extent)
+        n = len(var)
+        exp = ([(cap, pw)] * n, cap, n * pw + cap * 8, n * (pw + cap * 8) + cap * 8, n * (pw + cap * 8) + cap * 8)
+        if got != exp:
+            diff.append((name, got, exp))
+    r = {"nt": True, "key": core.jhash(list(arg))}
+    if diff:
+        r["bad"] = {"kind": "service-parts", "case": {"request_cap": creq, "response_cap": cresp, "early_use_in_request": first_use}, "diff": diff}
+    return r
+
 def consume(ctx, results, tag):
     for r in results:
         if r is None:
@@ -211,6 +240,8 @@ def run(ctx):
         return out
     run_cfg(ctx, "Layout", "Layout_boundary.cfg", boundary_worker, "bnd", mk)
     run_cfg(ctx, "Layout", "Layout_sessions.cfg", session_worker, "sess")
+    parts = [(a, b, u) for a in (1, 2, 100, 255, 256, 300) for b in (1, 2, 100, 255, 256, 300, 65535, 65536) if a != b for u in (True, False)]
+    consume(ctx, core.pmap(service_parts_worker, parts, chunksize=4), "service-parts")
     ctx.sample({"type": {"k": "st", "f": [{"k": "var", "e": {"k": "u", "n": 12, "m": "s"}, "c": 2},
                                          {"k": "st", "f": [{"k": "u", "n": 8, "m": "s"}]}, {"k": "u", "n": 4, "m": "s"}]},
                 "expected_bls": [24, 40, 48]})
